@@ -217,10 +217,13 @@ CLAIMED = {
         text="Proof for the generic replaced element (real replace_line_by_impedance / replace_impedance_by_line, loop over the rows): the "
              "impedance created for a line has rft/xft/gf/bf_pu of the line's per-unit pi model with the line's own length_km and "
              "parallel and Z_N = vn^2 / sn_mva, same buses, sn_mva and in_service; the line created for a symmetric impedance has "
-             "r * length = rft_pu * Z_N (x alike), no capacitance, parallel 1 - the inverse mapping.",
-        note="Assumed: create_impedance / create_line_from_parameters store their arguments; the line pi model (C02). Not decided: the "
-             "other transformations named in the statement (ext_grid -> gen, ward / xward replacement, merge_nets, select_subnet, "
-             "drop_inactive_elements, fuse_buses, merge_parallel_line), result / profile / group adaptation."),
+             "r * length = rft_pu * Z_N (x alike), no capacitance, parallel 1 - the inverse mapping; the real "
+             "replace_xward_by_internal_elements creates a series impedance whose physical value is the xward's r_ohm / x_ohm for every "
+             "net.sn_mva, and load / shunt / gen with the xward's values; the real select_subnet returns a new net carrying f_hz of "
+             "its source.",
+        note="Assumed: the create functions store their arguments; the line pi model (C02). Not decided: ext_grid -> gen, ward "
+             "replacement, merge_nets, the element selection of select_subnet, drop_inactive_elements, fuse_buses, "
+             "merge_parallel_line, result / profile / group adaptation."),
     "C18": dict(
         text="Proof: the real _kappa gives 1.02 < kappa <= 2 for every R/X >= 0; provenance contract for the network matrices: the real "
              "_calc_rx reads Zbus when inverse_y else ybus_fact, and the real _kappa_method_c hands it an equivalent-frequency copy "
